@@ -81,6 +81,9 @@ theorem rd_foldl_wr (cells : List Int) (v : Int) (s : List Int) (u : Int)
 
 /-! ### own-write lookups -/
 
+@[simp] theorem lookupI_nil (arr : String) (idx : List Int) (d : Int) :
+    Write.lookupI ([] : List (Write K)) arr idx d = d := rfl
+
 theorem lookupI_append (l1 l2 : List (Write K)) (arr : String) (idx : List Int) (d : Int) :
     Write.lookupI (l1 ++ l2) arr idx d = Write.lookupI l2 arr idx (Write.lookupI l1 arr idx d) := by
   unfold Write.lookupI; rw [List.foldl_append]
@@ -1905,5 +1908,775 @@ theorem length_wakeKernelTask (trigger : Int → Bool) (s : List Int) (t : Int) 
   split
   · exact length_wakeTree _ _ _
   · rfl
+
+/-! ### `_tree_can_sleep` -/
+
+/-- a `for` loop that returns `false` from the function at the first hit -/
+theorem forRange_flag (n : Int) (hit : Int → Bool) (body : Int → Bool × Bool × Bool → Bool × Bool × Bool) (r0 v0 : Bool)
+    (hbody : ∀ i st, body i st = if st.1 then st else if hit i then (true, true, false) else st) :
+    forRange 0 n (false, r0, v0) body
+      = if (List.range n.toNat).any (fun (k : Nat) => hit k) then (true, true, false) else (false, r0, v0) := by
+  unfold forRange
+  rw [Int.sub_zero]
+  generalize n.toNat = m
+  induction m with
+  | zero => simp
+  | succ m ih =>
+    rw [List.range_succ, List.foldl_append, ih]
+    simp only [List.foldl_cons, List.foldl_nil, List.any_append, List.any_cons, List.any_nil, Bool.or_false, Int.zero_add,
+      Int.ofNat_eq_natCast]
+    rw [hbody]
+    by_cases h : (List.range m).any (fun (k : Nat) => hit k) = true
+    · simp [h]
+    · have h' : (List.range m).any (fun (k : Nat) => hit k) = false := by simpa using h
+      rw [h']
+      cases hk : hit (m : Int) <;> simp
+
+section cansleep
+variable [Scalar K]
+
+/-- **`_tree_can_sleep` = its closed form**, every scalar type, every input -/
+theorem tree_can_sleep_eq (nbody : Int) (body_treeid : Int → Int) (dof_length : Int → K)
+    (tree_dofadr tree_dofnum tree_sleep_policy : Int → Int) (qvel_in qfrc_applied_in : Int → Int → K)
+    (xfrc_applied_in : Int → Int → V6 K) (w t : Int) (tol : K) :
+    Gen.Sleep._tree_can_sleep (K := K) nbody body_treeid dof_length tree_dofadr tree_dofnum tree_sleep_policy qvel_in
+        qfrc_applied_in xfrc_applied_in w t tol
+      = canSleepSpec nbody body_treeid dof_length (tree_dofadr t) (tree_dofnum t) (tree_sleep_policy t) (qvel_in w)
+          (qfrc_applied_in w) (xfrc_applied_in w) t tol := by
+  unfold Gen.Sleep._tree_can_sleep canSleepSpec
+  by_cases hp : tree_sleep_policy t = 1
+  · simp [hp]
+  · simp only [hp, decide_false, Bool.false_eq_true, if_false]
+    rw [forRange_flag nbody (fun b => decide (body_treeid b = t) && anyNonzero6 (xfrc_applied_in w b)) _ false false
+      (by
+        intro i st
+        obtain ⟨a, b, c⟩ := st
+        cases a
+        · simp only [Bool.false_eq_true, if_false, anyNonzero6]
+          by_cases h : body_treeid i = t
+          · simp only [h, decide_true, if_true, Bool.true_and]
+            cases Scalar.bne (xfrc_applied_in w i).c0 (Scalar.lit 0 0 : K) <;>
+            cases Scalar.bne (xfrc_applied_in w i).c1 (Scalar.lit 0 0 : K) <;>
+            cases Scalar.bne (xfrc_applied_in w i).c2 (Scalar.lit 0 0 : K) <;>
+            cases Scalar.bne (xfrc_applied_in w i).c3 (Scalar.lit 0 0 : K) <;>
+            cases Scalar.bne (xfrc_applied_in w i).c4 (Scalar.lit 0 0 : K) <;>
+            cases Scalar.bne (xfrc_applied_in w i).c5 (Scalar.lit 0 0 : K) <;> rfl
+          · simp [h]
+        · rfl)]
+    by_cases h1 : (List.range nbody.toNat).any (fun (b : Nat) => decide (body_treeid b = t) && anyNonzero6 (xfrc_applied_in w b)) = true
+    · simp [h1]
+    · have h1' : (List.range nbody.toNat).any (fun (b : Nat) => decide (body_treeid b = t) && anyNonzero6 (xfrc_applied_in w b)) = false := by
+        simpa using h1
+      simp only [h1', Bool.false_eq_true, if_false]
+      rw [forRange_flag (tree_dofnum t) (fun d => Scalar.bne (qfrc_applied_in w (tree_dofadr t + d)) (Scalar.lit 0 0 : K)) _ false false
+        (by
+          intro i st
+          obtain ⟨a, b, c⟩ := st
+          cases a
+          · simp only [Bool.false_eq_true, if_false]
+          · rfl)]
+      by_cases h2 : (List.range (tree_dofnum t).toNat).any (fun (d : Nat) => Scalar.bne (qfrc_applied_in w (tree_dofadr t + d)) (Scalar.lit 0 0 : K)) = true
+      · simp [h2]
+      · have h2' : (List.range (tree_dofnum t).toNat).any (fun (d : Nat) => Scalar.bne (qfrc_applied_in w (tree_dofadr t + d)) (Scalar.lit 0 0 : K)) = false := by
+          simpa using h2
+        simp only [h2', Bool.false_eq_true, if_false]
+        rw [forRange_flag (tree_dofnum t) (fun d => if Scalar.gt tol (Scalar.lit 0 0 : K) then
+            Scalar.ge (Scalar.abs (dof_length (tree_dofadr t + d) * qvel_in w (tree_dofadr t + d))) tol
+            else Scalar.bne (qvel_in w (tree_dofadr t + d)) (Scalar.lit 0 0 : K)) _ false false
+          (by
+            intro i st
+            obtain ⟨a, b, c⟩ := st
+            cases a
+            · simp only [Bool.false_eq_true, if_false]
+              cases Scalar.gt tol (Scalar.lit 0 0 : K)
+              · simp only [Bool.false_eq_true, if_false]
+              · simp only [if_true]
+            · rfl)]
+        by_cases h3 : (List.range (tree_dofnum t).toNat).any (fun (d : Nat) => if Scalar.gt tol (Scalar.lit 0 0 : K) then
+            Scalar.ge (Scalar.abs (dof_length (tree_dofadr t + d) * qvel_in w (tree_dofadr t + d))) tol
+            else Scalar.bne (qvel_in w (tree_dofadr t + d)) (Scalar.lit 0 0 : K)) = true
+        · simp [h3]
+        · have h3' : (List.range (tree_dofnum t).toNat).any (fun (d : Nat) => if Scalar.gt tol (Scalar.lit 0 0 : K) then
+              Scalar.ge (Scalar.abs (dof_length (tree_dofadr t + d) * qvel_in w (tree_dofadr t + d))) tol
+              else Scalar.bne (qvel_in w (tree_dofadr t + d)) (Scalar.lit 0 0 : K)) = false := by simpa using h3
+          simp [h3']
+
+end cansleep
+
+/-! ### collision launch on the list state -/
+
+theorem applyAsleep_wakeTreeWrites_other (w w' : Int) (hw : w' ≠ w) (s : List Int) (n : Int) (a : Int → Int) (t v : Int) :
+    applyAsleep w s (wakeTreeWrites (K := K) w' n a t v) = s := by
+  unfold wakeTreeWrites
+  generalize wakeCells n a t v = cells
+  induction cells with
+  | nil => rfl
+  | cons c l ih =>
+    show applyAsleep w (applyAsleep1 w s (setAsleep w' c v)) _ = s
+    have : applyAsleep1 (K := K) w s (setAsleep w' c v) = s := by simp [applyAsleep1, setAsleep, hw]
+    rw [this]; exact ih
+
+/-- a sleeping entry pointing outside the array is never woken -/
+theorem wakeTree_corrupt (s : List Int) (t v : Int) (h : rd s t ≥ s.length) : wakeTree s t v = s := by
+  have hc : wakeCells s.length (rd s) t v = [] := by
+    unfold wakeCells
+    split
+    · rfl
+    · rw [if_neg (by omega)]
+      have : (s.length + 1 : Int).toNat = s.length + 1 := by omega
+      rw [this]
+      unfold wakePathAux
+      simp only [List.not_mem_nil, if_false]
+      rw [if_pos (Or.inr h)]
+  unfold wakeTree; rw [hc]; rfl
+
+/-! ### tendon and equality kernels -/
+
+theorem forRange_flatMap {α : Type} (g : Int → List α) (n : Int) (ws : List α) :
+    forRange 0 n ws (fun i st => st ++ g i) = ws ++ (List.range n.toNat).flatMap (fun (k : Nat) => g (k : Int)) := by
+  unfold forRange
+  rw [Int.sub_zero]
+  have := foldl_flat (fun (k : Nat) => g (0 + Int.ofNat k)) n.toNat ws
+  rw [this]
+  simp
+
+theorem ite_ite_append {α : Type} (c1 c2 : Prop) [Decidable c1] [Decidable c2] (st W : List α) :
+    (if c1 then (if c2 then st ++ W else st) else st) = st ++ if c1 ∧ c2 then W else [] := by
+  by_cases h1 : c1 <;> by_cases h2 : c2 <;> simp [h1, h2]
+
+
+/-- the "wake every flag-0 tree of the path" loop (as generated, in `_wake_tendon_trees` and in pass 2 of `_wake_tendon_kernel`) -/
+theorem tendon_pass2_loop [Scalar K] (ntree : Int) (body_treeid jnt_bodyid geom_bodyid site_bodyid wrap_type wrap_objid : Int → Int)
+    (tree_awake_in : Int → Int → Int) (w adr num v : Int) (arr : Int → Int → Int) :
+    Mjw.forRange (0 : Int) num ([] : List (Write K)) (fun (i : Int) (st : List (Write K)) =>
+        let ws := st
+        let idx : Int := (adr + i)
+        let t_type : Int := (wrap_type idx)
+        let t_objid : Int := (wrap_objid idx)
+        let t : Int := (-1 : Int)
+        let t :=
+          if (decide (t_type = (1 : Int))) then
+            let t : Int := (body_treeid (jnt_bodyid t_objid))
+            t
+          else
+            let t :=
+              if (decide (t_type = (3 : Int))) then
+                let t : Int := (body_treeid (site_bodyid t_objid))
+                t
+              else
+                let t :=
+                  if ((decide (t_type = (4 : Int))) || (decide (t_type = (5 : Int)))) then
+                    let t : Int := (body_treeid (geom_bodyid t_objid))
+                    t
+                  else
+                    t
+                t
+            t
+        let ws :=
+          if (decide (t ≥ (0 : Int))) then
+            let ws :=
+              if (decide ((tree_awake_in w t) = (0 : Int))) then
+                let ws : List (Write K) := ws ++ ((let r := (Mjw.Gen.Sleep._wake_tree (K := K) ntree w t v arr); (r.1, Write.renameAll [("tree_asleep_out", "tree_asleep_out")] r.2))).2
+                ws
+              else
+                ws
+            ws
+          else
+            ws
+        ws)
+      = tendonWakeWrites w ntree (arr w) (tree_awake_in w)
+          (tendonTrees (wrapTree body_treeid jnt_bodyid geom_bodyid site_bodyid wrap_type wrap_objid) adr num) v := by
+  have hbody : (fun (i : Int) (st : List (Write K)) =>
+        let ws := st
+        let idx : Int := (adr + i)
+        let t_type : Int := (wrap_type idx)
+        let t_objid : Int := (wrap_objid idx)
+        let t : Int := (-1 : Int)
+        let t :=
+          if (decide (t_type = (1 : Int))) then
+            let t : Int := (body_treeid (jnt_bodyid t_objid))
+            t
+          else
+            let t :=
+              if (decide (t_type = (3 : Int))) then
+                let t : Int := (body_treeid (site_bodyid t_objid))
+                t
+              else
+                let t :=
+                  if ((decide (t_type = (4 : Int))) || (decide (t_type = (5 : Int)))) then
+                    let t : Int := (body_treeid (geom_bodyid t_objid))
+                    t
+                  else
+                    t
+                t
+            t
+        let ws :=
+          if (decide (t ≥ (0 : Int))) then
+            let ws :=
+              if (decide ((tree_awake_in w t) = (0 : Int))) then
+                let ws : List (Write K) := ws ++ ((let r := (Mjw.Gen.Sleep._wake_tree (K := K) ntree w t v arr); (r.1, Write.renameAll [("tree_asleep_out", "tree_asleep_out")] r.2))).2
+                ws
+              else
+                ws
+            ws
+          else
+            ws
+        ws)
+      = (fun i st => st ++ (if wrapTree body_treeid jnt_bodyid geom_bodyid site_bodyid wrap_type wrap_objid (adr + i) ≥ 0
+            ∧ tree_awake_in w (wrapTree body_treeid jnt_bodyid geom_bodyid site_bodyid wrap_type wrap_objid (adr + i)) = 0
+          then wakeTreeWrites w ntree (arr w) (wrapTree body_treeid jnt_bodyid geom_bodyid site_bodyid wrap_type wrap_objid (adr + i)) v
+          else [])) := by
+    funext i st
+    simp only [wake_tree_eq, renameAll_self, wrapTree, decide_eq_true_eq, Bool.or_eq_true]
+    exact ite_ite_append _ _ _ _
+  rw [hbody, forRange_flatMap]
+  unfold tendonWakeWrites tendonWakeCells tendonTrees wakeTreeWrites
+  rw [List.nil_append, List.flatMap_map, List.map_flatMap]
+  congr 1
+  funext k
+  split <;> simp
+
+theorem wake_tendon_trees_eq [Scalar K] (ntree : Int) (body_treeid jnt_bodyid geom_bodyid site_bodyid tendon_adr tendon_num wrap_type wrap_objid : Int → Int)
+    (tree_awake_in : Int → Int → Int) (w tenid v : Int) (arr : Int → Int → Int) :
+    Gen.Sleep._wake_tendon_trees (K := K) ntree body_treeid jnt_bodyid geom_bodyid site_bodyid tendon_adr tendon_num wrap_type
+        wrap_objid tree_awake_in w tenid v arr
+      = if tenid < 0 then [] else
+          tendonWakeWrites w ntree (arr w) (tree_awake_in w)
+            (tendonTrees (wrapTree body_treeid jnt_bodyid geom_bodyid site_bodyid wrap_type wrap_objid) (tendon_adr tenid) (tendon_num tenid)) v := by
+  unfold Gen.Sleep._wake_tendon_trees
+  by_cases h : tenid < 0
+  · simp [h]
+  · simp only [h, decide_false, Bool.false_eq_true, if_false]
+    exact tendon_pass2_loop ntree body_treeid jnt_bodyid geom_bodyid site_bodyid wrap_type wrap_objid tree_awake_in w _ _ v arr
+
+theorem forRange_foldl_map {σ α : Type} (f : Int → α) (g : α → σ → σ) (n : Int) (init : σ) :
+    forRange 0 n init (fun i st => g (f i) st) = ((List.range n.toNat).map (fun (k : Nat) => f (k : Int))).foldl (fun st t => g t st) init := by
+  unfold forRange
+  rw [Int.sub_zero, List.foldl_map]
+  simp
+
+theorem tendonVal_step (c1 c2 : Prop) [Decidable c1] [Decidable c2] (x st : Int) :
+    (if c1 then ((if c2 then (x, if st = 0 ∨ x < st then x else st) else (0, st)).1,
+        (if c2 then (x, if st = 0 ∨ x < st then x else st) else (0, st)).2) else ((0 : Int), st)).2
+      = if c1 ∧ c2 then (if st = 0 ∨ x < st then x else st) else st := by
+  by_cases h1 : c1 <;> by_cases h2 : c2 <;> simp [h1, h2]
+
+theorem tendon_wake_val_eq [Scalar K] (body_treeid jnt_bodyid geom_bodyid site_bodyid tendon_adr tendon_num wrap_type wrap_objid : Int → Int)
+    (tree_awake_in : Int → Int → Int) (w tenid : Int) (arr : Int → Int → Int) :
+    Gen.Sleep._tendon_wake_val (K := K) body_treeid jnt_bodyid geom_bodyid site_bodyid tendon_adr tendon_num wrap_type
+        wrap_objid tree_awake_in w tenid arr
+      = if tenid < 0 then 0 else
+          tendonWakeVal (arr w) (tree_awake_in w)
+            (tendonTrees (wrapTree body_treeid jnt_bodyid geom_bodyid site_bodyid wrap_type wrap_objid) (tendon_adr tenid) (tendon_num tenid)) := by
+  unfold Gen.Sleep._tendon_wake_val
+  by_cases h : tenid < 0
+  · simp [h]
+  · simp only [h, decide_false, Bool.false_eq_true, if_false]
+    unfold tendonWakeVal tendonTrees
+    rw [← forRange_foldl_map (fun i => wrapTree body_treeid jnt_bodyid geom_bodyid site_bodyid wrap_type wrap_objid (tendon_adr tenid + i))
+      (fun t wv => if t ≥ 0 ∧ tree_awake_in w t = 1 then (if wv = 0 ∨ arr w t < wv then arr w t else wv) else wv)]
+    congr 1
+    funext i st
+    simp only [wrapTree, decide_eq_true_eq, Bool.or_eq_true]
+    exact tendonVal_step _ _ _ _
+
+theorem tendonScan_step (c1 c2 : Prop) [Decidable c1] [Decidable c2] (x aa wv : Int) :
+    ((if c1 then ((if c2 then ((1 : Int), x, if x < wv then x else wv) else (aa, (0 : Int), wv)).1,
+          (if c2 then ((1 : Int), x, if x < wv then x else wv) else (aa, (0 : Int), wv)).2.1,
+          (if c2 then ((1 : Int), x, if x < wv then x else wv) else (aa, (0 : Int), wv)).2.2) else (aa, (0 : Int), wv)).1,
+     (if c1 then ((if c2 then ((1 : Int), x, if x < wv then x else wv) else (aa, (0 : Int), wv)).1,
+          (if c2 then ((1 : Int), x, if x < wv then x else wv) else (aa, (0 : Int), wv)).2.1,
+          (if c2 then ((1 : Int), x, if x < wv then x else wv) else (aa, (0 : Int), wv)).2.2) else (aa, (0 : Int), wv)).2.2)
+      = if c1 ∧ c2 then ((1 : Int), if x < wv then x else wv) else (aa, wv) := by
+  by_cases h1 : c1 <;> by_cases h2 : c2 <;> simp [h1, h2]
+
+theorem wake_tendon_kernel_eq [Scalar K] (ntree ntendon : Int) (body_treeid jnt_bodyid geom_bodyid site_bodyid tendon_adr tendon_num tendon_limited : Int → Int)
+    (tendon_range : Int → Int → V2 K) (tendon_margin : Int → Int → K) (wrap_type wrap_objid : Int → Int)
+    (ten_length_in : Int → Int → K) (tree_awake_in arr : Int → Int → Int) (sh0 sh1 w tenid : Int) :
+    Gen.Sleep._wake_tendon_kernel (K := K) ntree ntendon body_treeid jnt_bodyid geom_bodyid site_bodyid tendon_adr tendon_num
+        tendon_limited tendon_range tendon_margin wrap_type wrap_objid ten_length_in tree_awake_in arr sh0 sh1 w tenid
+      = if (tendonScan (arr w) (tree_awake_in w) (tendonTrees (wrapTree body_treeid jnt_bodyid geom_bodyid site_bodyid wrap_type wrap_objid)
+              (tendon_adr tenid) (tendon_num tenid))).1 = 1
+            ∧ Gen.Sleep._tendon_limit_active (K := K) tendon_limited tendon_range tendon_margin ten_length_in w tenid sh0 sh1 = true
+        then tendonWakeWrites w ntree (arr w) (tree_awake_in w)
+          (tendonTrees (wrapTree body_treeid jnt_bodyid geom_bodyid site_bodyid wrap_type wrap_objid) (tendon_adr tenid) (tendon_num tenid))
+          (tendonScan (arr w) (tree_awake_in w) (tendonTrees (wrapTree body_treeid jnt_bodyid geom_bodyid site_bodyid wrap_type wrap_objid)
+              (tendon_adr tenid) (tendon_num tenid))).2
+        else [] := by
+  unfold Gen.Sleep._wake_tendon_kernel
+  simp only [tendon_pass2_loop, lookupI_nil]
+  unfold tendonScan tendonTrees
+  rw [← forRange_foldl_map (fun i => wrapTree body_treeid jnt_bodyid geom_bodyid site_bodyid wrap_type wrap_objid (tendon_adr tenid + i))
+      (fun t (st : Int × Int) => if t ≥ 0 ∧ tree_awake_in w t = 1 then ((1 : Int), if arr w t < st.2 then arr w t else st.2) else st)]
+  have hbody : (fun (i : Int) (st : (Int × Int)) =>
+      let (any_awake, wakeval) := st
+      let idx : Int := (tendon_adr tenid + i)
+      let t_type : Int := (wrap_type idx)
+      let t_objid : Int := (wrap_objid idx)
+      let t : Int := (-1 : Int)
+      let t :=
+        if (decide (t_type = (1 : Int))) then
+          let t : Int := (body_treeid (jnt_bodyid t_objid))
+          t
+        else
+          let t :=
+            if (decide (t_type = (3 : Int))) then
+              let t : Int := (body_treeid (site_bodyid t_objid))
+              t
+            else
+              let t :=
+                if ((decide (t_type = (4 : Int))) || (decide (t_type = (5 : Int)))) then
+                  let t : Int := (body_treeid (geom_bodyid t_objid))
+                  t
+                else
+                  t
+              t
+          t
+      let (any_awake, val, wakeval) :=
+        if (decide (t ≥ (0 : Int))) then
+          let (any_awake, val, wakeval) :=
+            if (decide ((tree_awake_in w t) = (1 : Int))) then
+              let any_awake : Int := (1 : Int)
+              let val : Int := (arr w t)
+              let wakeval :=
+                if (decide (val < wakeval)) then
+                  let wakeval : Int := val
+                  wakeval
+                else
+                  wakeval
+              (any_awake, val, wakeval)
+            else
+              (any_awake, (0 : Int), wakeval)
+          (any_awake, val, wakeval)
+        else
+          (any_awake, (0 : Int), wakeval)
+      (any_awake, wakeval))
+    = (fun i st => (fun t (st : Int × Int) => if t ≥ 0 ∧ tree_awake_in w t = 1 then ((1 : Int), if arr w t < st.2 then arr w t else st.2) else st)
+        (wrapTree body_treeid jnt_bodyid geom_bodyid site_bodyid wrap_type wrap_objid (tendon_adr tenid + i)) st) := by
+    funext i st
+    obtain ⟨aa, wv⟩ := st
+    simp only [wrapTree, decide_eq_true_eq, Bool.or_eq_true]
+    exact tendonScan_step _ _ _ _ _
+  rw [hbody]
+  have hA : AWAKE_VAL = -11 := rfl
+  rw [hA]
+  generalize (forRange 0 (tendon_num tenid) ((0 : Int), (-11 : Int)) fun i st =>
+    (fun t (st : Int × Int) => if t ≥ 0 ∧ tree_awake_in w t = 1 then ((1 : Int), if arr w t < st.2 then arr w t else st.2) else st)
+      (wrapTree body_treeid jnt_bodyid geom_bodyid site_bodyid wrap_type wrap_objid (tendon_adr tenid + i)) st) = sc
+  by_cases h1 : sc.1 = 1 <;>
+    by_cases h2 : Gen.Sleep._tendon_limit_active (K := K) tendon_limited tendon_range tendon_margin ten_length_in w tenid sh0 sh1 = true <;>
+    simp [h1, h2]
+
+theorem rename_id (m : List (String × String)) (hm : ∀ p ∈ m, p.1 = p.2) (x : Write K) : Write.rename m x = x := by
+  unfold Write.rename
+  cases hf : m.find? (fun p => p.1 == x.arr) with
+  | none => rfl
+  | some p =>
+    have hp := List.find?_some hf
+    have hmem := List.mem_of_find?_eq_some hf
+    have e1 : p.1 = x.arr := by simpa using hp
+    have e2 := hm p hmem
+    cases x
+    simp_all
+
+theorem map_rename_id (m : List (String × String)) (ws : List (Write K)) (hm : ∀ p ∈ m, p.1 = p.2) :
+    List.map (Write.rename m) ws = ws := by
+  induction ws with
+  | nil => rfl
+  | cons x l ih => rw [List.map_cons, rename_id m hm, ih]
+
+theorem wake_equality_kernel_eq [Scalar K] (ntree neq : Int) (body_treeid jnt_bodyid geom_bodyid site_bodyid eq_type eq_obj1id eq_obj2id
+      eq_objtype tendon_adr tendon_num wrap_type wrap_objid : Int → Int) (eq_active_in : Int → Int → Bool)
+    (tree_awake_in arr : Int → Int → Int) (w eqid : Int) :
+    Gen.Sleep._wake_equality_kernel (K := K) ntree neq body_treeid jnt_bodyid geom_bodyid site_bodyid eq_type eq_obj1id eq_obj2id
+        eq_objtype tendon_adr tendon_num wrap_type wrap_objid eq_active_in tree_awake_in arr w eqid
+      = if eq_active_in w eqid = false then []
+        else if eq_type eqid = 0 ∨ eq_type eqid = 1 ∨ eq_type eqid = 2 then
+          let tt := eqTrees body_treeid jnt_bodyid site_bodyid (eq_type eqid) (eq_objtype eqid) (eq_obj1id eqid) (eq_obj2id eqid)
+          eqBodyWrites w ntree (arr w) tt.1 tt.2
+            (if tt.1 ≥ 0 then tree_awake_in w tt.1 else -1) (if tt.2 ≥ 0 then tree_awake_in w tt.2 else -1)
+            (Gen.Sleep._sleep_cycle (K := K) arr ntree w tt.1) (Gen.Sleep._sleep_cycle (K := K) arr ntree w tt.2)
+        else if eq_type eqid = 3 then
+          let w1 := Gen.Sleep._tendon_wake_val (K := K) body_treeid jnt_bodyid geom_bodyid site_bodyid tendon_adr tendon_num wrap_type
+            wrap_objid tree_awake_in w (eq_obj1id eqid) arr
+          let w2 := Gen.Sleep._tendon_wake_val (K := K) body_treeid jnt_bodyid geom_bodyid site_bodyid tendon_adr tendon_num wrap_type
+            wrap_objid tree_awake_in w (eq_obj2id eqid) arr
+          if w1 < 0 ∨ w2 < 0 then
+            let v1 : Int := if w1 < 0 ∧ w1 < -11 then w1 else -11
+            let v : Int := if w2 < 0 ∧ w2 < v1 then w2 else v1
+            Gen.Sleep._wake_tendon_trees (K := K) ntree body_treeid jnt_bodyid geom_bodyid site_bodyid tendon_adr tendon_num wrap_type
+                wrap_objid tree_awake_in w (eq_obj1id eqid) v arr
+              ++ Gen.Sleep._wake_tendon_trees (K := K) ntree body_treeid jnt_bodyid geom_bodyid site_bodyid tendon_adr tendon_num
+                wrap_type wrap_objid tree_awake_in w (eq_obj2id eqid) v arr
+          else []
+        else [] := by
+  unfold Gen.Sleep._wake_equality_kernel
+  by_cases hact : eq_active_in w eqid = true
+  · simp only [hact, Bool.not_true, Bool.false_eq_true, if_false]
+    by_cases hty : eq_type eqid = 0 ∨ eq_type eqid = 1 ∨ eq_type eqid = 2
+    · have hb : (decide (eq_type eqid = 0) || decide (eq_type eqid = 1) || decide (eq_type eqid = 2)) = true := by
+        simp only [Bool.or_eq_true, decide_eq_true_eq]; tauto
+      simp only [hb, if_true, if_pos hty, wake_tree_eq, renameAll_self]
+      have hTT : (if (decide (eq_type eqid = 0) || decide (eq_type eqid = 1)) = true then
+            ((if decide (eq_objtype eqid = 1) = true then (body_treeid (eq_obj1id eqid), body_treeid (eq_obj2id eqid))
+              else (body_treeid (site_bodyid (eq_obj1id eqid)), body_treeid (site_bodyid (eq_obj2id eqid)))).1,
+             (if decide (eq_objtype eqid = 1) = true then (body_treeid (eq_obj1id eqid), body_treeid (eq_obj2id eqid))
+              else (body_treeid (site_bodyid (eq_obj1id eqid)), body_treeid (site_bodyid (eq_obj2id eqid)))).2)
+          else
+            ((if decide (eq_type eqid = 2) = true then
+                (if decide (eq_obj1id eqid ≥ 0) = true then body_treeid (jnt_bodyid (eq_obj1id eqid)) else -1,
+                 if decide (eq_obj2id eqid ≥ 0) = true then body_treeid (jnt_bodyid (eq_obj2id eqid)) else -1)
+              else ((-1 : Int), (-1 : Int))).1,
+             (if decide (eq_type eqid = 2) = true then
+                (if decide (eq_obj1id eqid ≥ 0) = true then body_treeid (jnt_bodyid (eq_obj1id eqid)) else -1,
+                 if decide (eq_obj2id eqid ≥ 0) = true then body_treeid (jnt_bodyid (eq_obj2id eqid)) else -1)
+              else ((-1 : Int), (-1 : Int))).2))
+          = eqTrees body_treeid jnt_bodyid site_bodyid (eq_type eqid) (eq_objtype eqid) (eq_obj1id eqid) (eq_obj2id eqid) := by
+        unfold eqTrees
+        by_cases h01 : eq_type eqid = 0 ∨ eq_type eqid = 1
+        · have : (decide (eq_type eqid = 0) || decide (eq_type eqid = 1)) = true := by simpa using h01
+          rw [if_pos this, if_pos h01]
+          by_cases ho : eq_objtype eqid = 1 <;> simp [ho]
+        · have : (decide (eq_type eqid = 0) || decide (eq_type eqid = 1)) = false := by simpa using h01
+          rw [if_neg (by simp [this]), if_neg h01]
+          by_cases h2 : eq_type eqid = 2 <;> simp [h2]
+      rw [hTT]
+      generalize eqTrees body_treeid jnt_bodyid site_bodyid (eq_type eqid) (eq_objtype eqid) (eq_obj1id eqid) (eq_obj2id eqid) = tt
+      simp only [decide_eq_true_eq, Bool.and_eq_true, Bool.or_eq_true, List.nil_append, Bool.true_eq_false, if_false]
+      generalize (if tt.1 ≥ 0 then tree_awake_in w tt.1 else -1) = s1
+      generalize (if tt.2 ≥ 0 then tree_awake_in w tt.2 else -1) = s2
+      generalize Gen.Sleep._sleep_cycle (K := K) arr ntree w tt.1 = c1
+      generalize Gen.Sleep._sleep_cycle (K := K) arr ntree w tt.2 = c2
+      unfold eqBodyWrites
+      have hA : AWAKE_VAL = -11 := rfl
+      rw [hA]
+      by_cases a : s1 = 0 <;> by_cases b : s2 = 0 <;> by_cases c : s1 = -1 <;> by_cases d : s2 = -1 <;>
+        by_cases e : tt.1 = tt.2 <;> by_cases f : c1 = c2 <;> simp [a, b, c, d, e, f]
+    · have hb : (decide (eq_type eqid = 0) || decide (eq_type eqid = 1) || decide (eq_type eqid = 2)) = false := by
+        rw [Bool.eq_false_iff]
+        simp only [ne_eq, Bool.or_eq_true, decide_eq_true_eq]; tauto
+      simp only [hb, Bool.false_eq_true, if_false, if_neg hty]
+      by_cases h3 : eq_type eqid = 3
+      · simp only [h3, decide_true, if_true, renameAll_self, List.nil_append, Write.renameAll, decide_eq_true_eq,
+          Bool.or_eq_true, Bool.and_eq_true]
+        rw [map_rename_id _ _ (by decide), map_rename_id _ _ (by decide)]
+        generalize Gen.Sleep._tendon_wake_val (K := K) body_treeid jnt_bodyid geom_bodyid site_bodyid tendon_adr tendon_num wrap_type
+          wrap_objid tree_awake_in w (eq_obj1id eqid) arr = w1
+        generalize Gen.Sleep._tendon_wake_val (K := K) body_treeid jnt_bodyid geom_bodyid site_bodyid tendon_adr tendon_num wrap_type
+          wrap_objid tree_awake_in w (eq_obj2id eqid) arr = w2
+        by_cases hw : w1 < 0 ∨ w2 < 0
+        · simp [hw]
+        · simp [hw]
+      · simp [h3]
+  · have : eq_active_in w eqid = false := by simpa using hact
+    simp [this]
+
+
+/-! ### wake-only write lists -/
+
+/-- every write stores a negative value into `tree_asleep_out` (any row) -/
+def WakeOnly (ws : List (Write K)) : Prop := ∀ x ∈ ws, ∃ w' c v : Int, v < 0 ∧ x = setAsleep w' c v
+
+theorem wakeOnly_nil : WakeOnly ([] : List (Write K)) := fun x hx => by simp at hx
+
+theorem wakeOnly_append {l1 l2 : List (Write K)} (h1 : WakeOnly l1) (h2 : WakeOnly l2) : WakeOnly (l1 ++ l2) := by
+  intro x hx
+  rcases List.mem_append.mp hx with h | h
+  · exact h1 x h
+  · exact h2 x h
+
+theorem wakeOnly_map (w : Int) (cells : List Int) (v : Int) (hv : v < 0) :
+    WakeOnly (cells.map (fun c => (setAsleep w c v : Write K))) := by
+  intro x hx
+  obtain ⟨c, -, e⟩ := List.mem_map.mp hx
+  exact ⟨w, c, v, hv, e.symm⟩
+
+theorem wakeOnly_wakeTreeWrites (w n : Int) (a : Int → Int) (t v : Int) (hv : v < 0) :
+    WakeOnly (wakeTreeWrites (K := K) w n a t v) := wakeOnly_map w _ v hv
+
+/-- a state reachable from `s` by wake-only writes: same length, and what is still asleep is untouched -/
+def Reach (s s' : List Int) : Prop := s'.length = s.length ∧ ∀ u, rd s' u ≥ 0 → rd s' u = rd s u
+
+theorem Reach.refl (s : List Int) : Reach s s := ⟨rfl, fun _ _ => rfl⟩
+
+theorem applyAsleep_wakeOnly (w : Int) (s0 s : List Int) (ws : List (Write K)) (h : WakeOnly ws) (hr : Reach s0 s) :
+    Reach s0 (applyAsleep w s ws) ∧ ∀ u, rd s u < 0 → rd (applyAsleep w s ws) u < 0 := by
+  induction ws generalizing s with
+  | nil => exact ⟨hr, fun u h => h⟩
+  | cons x l ih =>
+    obtain ⟨w', c, v, hv, e⟩ := h x (by simp)
+    have hl : WakeOnly l := fun y hy => h y (List.mem_cons_of_mem _ hy)
+    have hstep : applyAsleep1 w s x = if w' = w then wr s c v else s := by
+      subst e; simp [applyAsleep1, setAsleep]
+    have hr1 : Reach s0 (applyAsleep1 w s x) ∧ ∀ u, rd s u < 0 → rd (applyAsleep1 w s x) u < 0 := by
+      rw [hstep]
+      by_cases hw : w' = w
+      · rw [if_pos hw]
+        refine ⟨⟨by rw [length_wr]; exact hr.1, fun u hu => ?_⟩, fun u hu => ?_⟩
+        · rw [rd_wr] at hu ⊢
+          by_cases hc : u = c ∧ 0 ≤ c ∧ c < s.length
+          · rw [if_pos hc] at hu; omega
+          · rw [if_neg hc] at hu ⊢; exact hr.2 u hu
+        · rw [rd_wr]; split
+          · exact hv
+          · exact hu
+      · rw [if_neg hw]; exact ⟨hr, fun u hu => hu⟩
+    obtain ⟨a, b⟩ := ih (applyAsleep1 w s x) hl hr1.1
+    exact ⟨a, fun u hu => b u (hr1.2 u hu)⟩
+
+/-- **a launch of wake-only tasks**: a tree that some task wakes whenever it finds it asleep is awake at the end,
+    whatever the task order -/
+theorem wake_only_launch {τ : Type} (w : Int) (task : (Int → Int → Int) → τ → List (Write K))
+    (hwo : ∀ s tid, WakeOnly (task (asArr s) tid)) (order : List τ) (s : List Int) (t : Int) (tid0 : τ) (h0 : tid0 ∈ order)
+    (hhit : ∀ s', Reach s s' → rd s' t ≥ 0 → rd (applyAsleep w s' (task (asArr s') tid0)) t < 0) :
+    rd (launchK w task order s) t < 0 := by
+  unfold launchK
+  -- generalise: from any reachable state, with tid0 still to come or t already awake
+  have key : ∀ (l : List τ) (s' : List Int), Reach s s' → (tid0 ∈ l ∨ rd s' t < 0) →
+      rd (l.foldl (fun s tid => applyAsleep w s (task (asArr s) tid)) s') t < 0 := by
+    intro l
+    induction l with
+    | nil => intro s' _ h; rcases h with h | h; · simp at h
+             · exact h
+    | cons a l ih =>
+      intro s' hr h
+      rw [List.foldl_cons]
+      obtain ⟨hr1, hmono⟩ := applyAsleep_wakeOnly w s s' (task (asArr s') a) (hwo s' a) hr
+      apply ih _ hr1
+      by_cases ha : rd s' t < 0
+      · exact Or.inr (hmono t ha)
+      · rcases h with h | h
+        · rcases List.mem_cons.mp h with e | e
+          · subst e; exact Or.inr (hhit s' hr (by omega))
+          · exact Or.inl e
+        · exact absurd h ha
+  exact key order s (Reach.refl s) (Or.inl h0)
+
+theorem wakePathAux_subset (n : Int) (a : Int → Int) (t v : Int) (k : Nat) (vis : List Int) (cur : Int) :
+    ∀ c ∈ vis, c ∈ wakePathAux n a t v k vis cur := by
+  induction k generalizing vis cur with
+  | zero => intro c hc; exact hc
+  | succ k ih =>
+    intro c hc
+    unfold wakePathAux
+    simp only []
+    generalize (if cur ∈ vis then v else a cur) = next
+    by_cases h1 : next < 0 ∨ next ≥ n
+    · rw [if_pos h1]; exact hc
+    · rw [if_neg h1]
+      by_cases h2 : next = t
+      · rw [if_pos h2]; exact List.mem_append_left _ hc
+      · rw [if_neg h2]; exact ih _ _ c (List.mem_append_left _ hc)
+
+/-- a sleeping tree whose entry points inside the array is among the cells `_wake_tree` stores into -/
+theorem mem_wakeCells_self (n : Int) (a : Int → Int) (t v : Int) (h0 : 0 ≤ t) (h1 : t < n) (h2 : 0 ≤ a t) (h3 : a t < n) :
+    t ∈ wakeCells n a t v := by
+  unfold wakeCells
+  rw [if_neg (by omega), if_neg (by omega)]
+  have : (n + 1).toNat = n.toNat + 1 := by omega
+  rw [this]
+  unfold wakePathAux
+  simp only [List.not_mem_nil, if_false, List.nil_append]
+  rw [if_neg (by omega)]
+  by_cases h : a t = t
+  · rw [if_pos h]; simp
+  · rw [if_neg h]; exact wakePathAux_subset n a t v _ [t] (a t) t (by simp)
+
+theorem rd_applyAsleep_cells (w : Int) (s : List Int) (cells : List Int) (v : Int) (u : Int)
+    (hin : ∀ c ∈ cells, 0 ≤ c ∧ c < s.length) :
+    rd (applyAsleep w s (cells.map (fun c => (setAsleep w c v : Write K)))) u = if u ∈ cells then v else rd s u := by
+  rw [applyAsleep_map_set, rd_foldl_wr _ _ _ _ hin]
+
+theorem tendonWakeCells_inrange (n : Int) (a awake : Int → Int) (trees : List Int) (v : Int) :
+    ∀ c ∈ tendonWakeCells n a awake trees v, 0 ≤ c ∧ c < n := by
+  intro c hc
+  unfold tendonWakeCells at hc
+  obtain ⟨t, -, h⟩ := List.mem_flatMap.mp hc
+  split at h
+  · exact wakeCells_inrange n a t v c h
+  · simp at h
+
+theorem tendonScan_spec (a awake : Int → Int) (trees : List Int) :
+    ((tendonScan a awake trees).1 = 1 ↔ ∃ t ∈ trees, t ≥ 0 ∧ awake t = 1) ∧ (tendonScan a awake trees).2 ≤ AWAKE_VAL ∧
+    ((∀ t ∈ trees, t ≥ 0 → awake t = 1 → AWAKE_VAL ≤ a t) → (tendonScan a awake trees).2 = AWAKE_VAL) := by
+  unfold tendonScan
+  have key : ∀ (l : List Int) (st : Int × Int), (st.1 = 0 ∨ st.1 = 1) → st.2 ≤ AWAKE_VAL →
+      let r := l.foldl (fun st t => if t ≥ 0 ∧ awake t = 1 then ((1 : Int), if a t < st.2 then a t else st.2) else st) st
+      (r.1 = 1 ↔ st.1 = 1 ∨ ∃ t ∈ l, t ≥ 0 ∧ awake t = 1) ∧ r.2 ≤ AWAKE_VAL ∧
+      ((∀ t ∈ l, t ≥ 0 → awake t = 1 → AWAKE_VAL ≤ a t) → st.2 = AWAKE_VAL → r.2 = AWAKE_VAL) := by
+    intro l
+    induction l with
+    | nil => intro st _ h2; exact ⟨by simp, h2, fun _ h => h⟩
+    | cons x l ih =>
+      intro st h1 h2
+      rw [List.foldl_cons]
+      by_cases hx : x ≥ 0 ∧ awake x = 1
+      · rw [if_pos hx]
+        have h2' : (if a x < st.2 then a x else st.2) ≤ AWAKE_VAL := by split <;> omega
+        obtain ⟨i1, i2, i3⟩ := ih ((1 : Int), if a x < st.2 then a x else st.2) (Or.inr rfl) h2'
+        refine ⟨?_, i2, fun hall hst => ?_⟩
+        · rw [i1]
+          constructor
+          · intro _; exact Or.inr ⟨x, by simp, hx⟩
+          · intro _; exact Or.inl rfl
+        · apply i3 (fun t ht => hall t (List.mem_cons_of_mem _ ht))
+          have := hall x (by simp) hx.1 hx.2
+          show (if a x < st.2 then a x else st.2) = AWAKE_VAL
+          split <;> omega
+      · rw [if_neg hx]
+        obtain ⟨i1, i2, i3⟩ := ih st h1 h2
+        refine ⟨?_, i2, fun hall hst => i3 (fun t ht => hall t (List.mem_cons_of_mem _ ht)) hst⟩
+        rw [i1]
+        constructor
+        · rintro (h | ⟨t, ht, h⟩)
+          · exact Or.inl h
+          · exact Or.inr ⟨t, List.mem_cons_of_mem _ ht, h⟩
+        · rintro (h | ⟨t, ht, h⟩)
+          · exact Or.inl h
+          · rcases List.mem_cons.mp ht with e | e
+            · subst e; exact absurd h hx
+            · exact Or.inr ⟨t, e, h⟩
+  obtain ⟨k1, k2, k3⟩ := key trees ((0 : Int), AWAKE_VAL) (Or.inl rfl) (le_refl _)
+  refine ⟨?_, k2, fun h => k3 h rfl⟩
+  rw [k1]
+  constructor
+  · rintro (h | h)
+    · simp at h
+    · exact h
+  · exact Or.inr
+
+theorem wakeOnly_ite (c : Prop) [Decidable c] {l1 l2 : List (Write K)} (h1 : WakeOnly l1) (h2 : WakeOnly l2) :
+    WakeOnly (if c then l1 else l2) := by
+  split
+  · exact h1
+  · exact h2
+
+theorem wakeOnly_tendonWakeWrites (w n : Int) (a awake : Int → Int) (trees : List Int) (v : Int) (hv : v < 0) :
+    WakeOnly (tendonWakeWrites (K := K) w n a awake trees v) := wakeOnly_map w _ v hv
+
+theorem wakeOnly_eqBodyWrites (w n : Int) (a : Int → Int) (t1 t2 s1 s2 c1 c2 : Int) :
+    WakeOnly (eqBodyWrites (K := K) w n a t1 t2 s1 s2 c1 c2) := by
+  have hA : AWAKE_VAL < 0 := by decide
+  unfold eqBodyWrites
+  exact wakeOnly_ite _ wakeOnly_nil (wakeOnly_ite _ wakeOnly_nil (wakeOnly_ite _ wakeOnly_nil
+    (wakeOnly_ite _ (wakeOnly_ite _ (wakeOnly_append (wakeOnly_wakeTreeWrites _ _ _ _ _ hA) (wakeOnly_wakeTreeWrites _ _ _ _ _ hA))
+      wakeOnly_nil) (wakeOnly_wakeTreeWrites _ _ _ _ _ hA))))
+
+/-! ### `_build_cycles` zeroes velocities and accelerations -/
+
+section zero
+variable [Scalar K]
+
+def qvelZero (w c : Int) : Write K := Write.mk "qvel_out" [w, c] (WVal.f (Scalar.lit 0 0 : K)) WKind.set
+def qaccZero (w c : Int) : Write K := Write.mk "qacc_out" [w, c] (WVal.f (Scalar.lit 0 0 : K)) WKind.set
+
+theorem mem_zeroDofs (w adr num : Int) (x : Write K) :
+    x ∈ zeroDofs w adr num ↔ ∃ d : Nat, (d : Int) < num ∧ (x = qvelZero w (adr + d) ∨ x = qaccZero w (adr + d)) := by
+  unfold zeroDofs qvelZero qaccZero
+  simp only [List.mem_flatMap, List.mem_range, List.mem_cons, List.not_mem_nil, or_false]
+  constructor
+  · rintro ⟨d, hd, h⟩; exact ⟨d, by omega, h⟩
+  · rintro ⟨d, hd, h⟩; exact ⟨d, by omega, h⟩
+
+theorem zeroDofs_sub_linkFrom (w : Int) (dofadr dofnum : Int → Int) (prev : Int) (ms : List Int) (m : Int) (hm : m ∈ ms) :
+    ∀ x ∈ zeroDofs (K := K) w (dofadr m) (dofnum m), x ∈ linkFrom w dofadr dofnum prev ms := by
+  induction ms generalizing prev with
+  | nil => simp at hm
+  | cons a l ih =>
+    intro x hx
+    rw [linkFrom]
+    rcases List.mem_cons.mp hm with e | e
+    · subst e
+      exact List.mem_append_left _ (List.mem_append_right _ hx)
+    · exact List.mem_append_right _ (ih a e x hx)
+
+/-- shape of the writes of `_build_cycles`: stores into `tree_asleep_out`, and ZERO stores into `qvel_out` / `qacc_out` -/
+def BuildShape (w : Int) (x : Write K) : Prop := (∃ c v, x = setAsleep w c v) ∨ (∃ c, x = qvelZero w c ∨ x = qaccZero w c)
+
+theorem shape_zeroDofs (w adr num : Int) : ∀ x ∈ zeroDofs (K := K) w adr num, BuildShape w x := by
+  intro x hx
+  obtain ⟨d, -, h⟩ := (mem_zeroDofs w adr num x).mp hx
+  exact Or.inr ⟨_, h⟩
+
+theorem shape_linkFrom (w : Int) (dofadr dofnum : Int → Int) (prev : Int) (ms : List Int) :
+    ∀ x ∈ linkFrom (K := K) w dofadr dofnum prev ms, BuildShape w x := by
+  induction ms generalizing prev with
+  | nil => intro x hx; simp [linkFrom] at hx
+  | cons a l ih =>
+    intro x hx
+    rw [linkFrom] at hx
+    rcases List.mem_append.mp hx with h | h
+    · rcases List.mem_append.mp h with h' | h'
+      · split at h'
+        · simp only [List.mem_singleton] at h'; exact Or.inl ⟨_, _, h'⟩
+        · simp at h'
+      · exact shape_zeroDofs _ _ _ x h'
+    · exact ih a x h
+
+theorem shape_buildCyclesWrites (w : Int) (n : Nat) (nisl : Int) (dofadr dofnum island ics a : Int → Int) :
+    ∀ x ∈ buildCyclesWrites (K := K) w n nisl dofadr dofnum island ics a, BuildShape w x := by
+  intro x hx
+  unfold buildCyclesWrites at hx
+  rcases List.mem_append.mp hx with h | h
+  · obtain ⟨i, -, hi⟩ := List.mem_flatMap.mp h
+    unfold islandWrites at hi
+    split at hi
+    · rcases List.mem_append.mp hi with h' | h'
+      · exact shape_linkFrom _ _ _ _ _ x h'
+      · split at h'
+        · simp only [List.mem_singleton] at h'; exact Or.inl ⟨_, _, h'⟩
+        · simp at h'
+    · simp at hi
+  · obtain ⟨t, -, ht⟩ := List.mem_flatMap.mp h
+    unfold phase2Writes at ht
+    split at ht
+    · rcases List.mem_append.mp ht with h' | h'
+      · split at h'
+        · simp only [List.mem_singleton] at h'; exact Or.inl ⟨_, _, h'⟩
+        · simp at h'
+      · split at h'
+        · exact shape_zeroDofs _ _ _ x h'
+        · simp at h'
+    · simp at ht
+
+/-- every dof of a tree that `_build_cycles` puts (or finds) asleep gets a zero store into `qvel` and `qacc` -/
+theorem zero_mem_buildCyclesWrites (w : Int) (n : Nat) (nisl : Int) (dofadr dofnum island ics a : Int → Int) (t : Int)
+    (ht0 : 0 ≤ t) (ht1 : t < n)
+    (hcase : (0 ≤ island t ∧ island t < nisl ∧ ics (island t) = 1) ∨ ((island t < 0 ∨ island t ≥ nisl) ∧ (a t = -1 ∨ a t ≥ 0)))
+    (d : Nat) (hd : (d : Int) < dofnum t) :
+    qvelZero w (dofadr t + d) ∈ buildCyclesWrites (K := K) w n nisl dofadr dofnum island ics a ∧
+    qaccZero w (dofadr t + d) ∈ buildCyclesWrites (K := K) w n nisl dofadr dofnum island ics a := by
+  have hz : qvelZero w (dofadr t + d) ∈ zeroDofs (K := K) w (dofadr t) (dofnum t) ∧
+      qaccZero w (dofadr t + d) ∈ zeroDofs (K := K) w (dofadr t) (dofnum t) :=
+    ⟨(mem_zeroDofs _ _ _ _).mpr ⟨d, hd, Or.inl rfl⟩, (mem_zeroDofs _ _ _ _).mpr ⟨d, hd, Or.inr rfl⟩⟩
+  unfold buildCyclesWrites
+  rcases hcase with ⟨h0, h1, hc⟩ | ⟨hinv, hat⟩
+  · have hsub : ∀ x ∈ zeroDofs (K := K) w (dofadr t) (dofnum t),
+        x ∈ (List.range nisl.toNat).flatMap (fun (i : Nat) => islandWrites (K := K) w n dofadr dofnum island ics i) := by
+      intro x hx
+      apply List.mem_flatMap.mpr
+      refine ⟨(island t).toNat, List.mem_range.mpr (by omega), ?_⟩
+      have hi : (((island t).toNat : Nat) : Int) = island t := by omega
+      rw [hi]
+      unfold islandWrites
+      rw [if_pos hc]
+      apply List.mem_append_left
+      exact zeroDofs_sub_linkFrom w dofadr dofnum (-1) _ t ((mem_members n island _ t).mpr ⟨ht0, ht1, rfl⟩) x hx
+    exact ⟨List.mem_append_left _ (hsub _ hz.1), List.mem_append_left _ (hsub _ hz.2)⟩
+  · have hsub : ∀ x ∈ zeroDofs (K := K) w (dofadr t) (dofnum t),
+        x ∈ (List.range n).flatMap (fun (t : Nat) => phase2Writes (K := K) w nisl dofadr dofnum island a t) := by
+      intro x hx
+      apply List.mem_flatMap.mpr
+      refine ⟨t.toNat, List.mem_range.mpr (by omega), ?_⟩
+      have hi : ((t.toNat : Nat) : Int) = t := by omega
+      rw [hi]
+      unfold phase2Writes
+      rw [if_pos hinv]
+      apply List.mem_append_right
+      rw [if_pos hat]
+      exact hx
+    exact ⟨List.mem_append_right _ (hsub _ hz.1), List.mem_append_right _ (hsub _ hz.2)⟩
+
+end zero
 
 end Mjw.Lemmas.C29
